@@ -32,8 +32,8 @@ def lex(s: str):
 
 
 class P:
-    def __init__(self, toks):
-        self.t, self.i = toks, 0
+    def __init__(self, toks, pow_right=False):
+        self.t, self.i, self.pow_right = toks, 0, pow_right
 
     def peek(self):
         return self.t[self.i] if self.i < len(self.t) else None
@@ -49,6 +49,12 @@ class P:
         ops = [("+", "-"), ("*", "/"), ("^",)][lvl]
         nxt = (lambda: self.level(lvl + 1)) if lvl < 2 else self.atom
         t = nxt()
+        if lvl == 2 and self.pow_right:
+            # alternative reading (right-associative power), used only to keep generated cases computable
+            if self.peek() == "^":
+                self.eat()
+                return ("^", t, self.level(2))
+            return t
         while self.peek() in ops:
             o = self.eat()
             t = (o, t, nxt())
@@ -79,11 +85,11 @@ class P:
         raise SyntaxError
 
 
-def parse(s: str):
+def parse(s: str, pow_right=False):
     toks = lex(s)
     if not toks:
         return None
-    p = P(toks)
+    p = P(toks, pow_right)
     try:
         t = p.level(0)
     except SyntaxError:
@@ -140,12 +146,16 @@ def feasible(s: str, scope: dict) -> bool:
     if t is None:
         # not a grammar string: fine unless the parser under test accepts it under some reading with a power
         return "^" not in s
-    try:
-        ev(t, scope)
-    except TooBig:
-        return False
-    except Undefined:
-        return _feasible_partial(t, scope)
+    for tree in ([t, parse(body, pow_right=True)] if body.count("^") > 1 else [t]):
+        # (both associativities of a power chain must stay computable, so that a parser that regroups it
+        #  is caught by the comparison instead of hanging the harness)
+        try:
+            ev(tree, scope)
+        except TooBig:
+            return False
+        except Undefined:
+            if not _feasible_partial(tree, scope):
+                return False
     return True
 
 
